@@ -405,6 +405,15 @@ pub fn sweep_family<O: PosOracle, G>(run: &Arc<Run>, oracle: &Arc<O>, n: u64, ge
 where
     G: Fn(u64) -> Option<RefPos> + Sync,
 {
+    sweep_family_first(run, oracle, n, gen, |_| None, child_depth)
+}
+
+/// As `sweep_family`, with an optional restriction of the action menu at the member itself.
+pub fn sweep_family_first<O: PosOracle, G, F>(run: &Arc<Run>, oracle: &Arc<O>, n: u64, gen: G, first: F, child_depth: u8) -> u64
+where
+    G: Fn(u64) -> Option<RefPos> + Sync,
+    F: Fn(&RefPos) -> Option<Vec<RMove>> + Sync,
+{
     let chunk = 4096u64;
     let chunks = (n + chunk - 1) / chunk;
     let members = std::sync::atomic::AtomicU64::new(0);
@@ -417,7 +426,7 @@ where
                 members.fetch_add(1, Ordering::Relaxed);
                 match St::root(&p) {
                     Ok(s) => {
-                        dfs_from(&**oracle, run, &s, child_depth);
+                        dfs_from_first(&**oracle, run, &s, child_depth, first(&p));
                     }
                     Err(e) => {
                         if run.id == "C07" {
@@ -437,14 +446,24 @@ where
 
 /// Plain recursive exploration without deduplication (used for family members and for replay).
 pub fn dfs_from<O: PosOracle + ?Sized>(oracle: &O, run: &Run, s: &St, depth: u8) -> bool {
+    dfs_from_first(oracle, run, s, depth, None)
+}
+pub fn dfs_from_first<O: PosOracle + ?Sized>(oracle: &O, run: &Run, s: &St, depth: u8, first: Option<Vec<RMove>>) -> bool {
     if !judge_state(oracle, run, s) {
         return false;
     }
     if depth == 0 {
         return true;
     }
-    let mut acts: Vec<Act> = menu_for(oracle, s).into_iter().map(Act::Mv).collect();
-    if s.nulls < oracle.max_nulls() {
+    let restricted = first.is_some();
+    let mut acts: Vec<Act> = match first {
+        Some(ms) => {
+            let all = menu_for(oracle, s);
+            ms.into_iter().filter(|m| all.contains(m)).map(Act::Mv).collect()
+        }
+        None => menu_for(oracle, s).into_iter().map(Act::Mv).collect(),
+    };
+    if !restricted && s.nulls < oracle.max_nulls() {
         acts.push(Act::Null);
     }
     for a in acts {
